@@ -4,6 +4,7 @@
 pub mod checks;
 pub mod core;
 pub mod corekit;
+pub mod corelab;
 pub mod env;
 pub mod sim;
 pub mod stubs;
